@@ -42,6 +42,8 @@ type (
 		Extend    string  `json:"extend,omitempty"`
 		Reference string  `json:"reference,omitempty"`
 		Val       *Val    `json:"val,omitempty"` // alias validations
+		// Default declared on the alias / named list / named map TYPE itself: Type("Score", Int, func(){ Default(10) }) (optional)
+		Default json.RawMessage `json:"default,omitempty"`
 		MediaType string  `json:"mediaType,omitempty"`
 		// Coll says how a collection is declared (kind == "collection", added for C08): nil = CollectionOf(elem);
 		// otherwise CollectionOf(elem, func() { [Description(Desc)] [View(v) for v in Views] })
